@@ -228,6 +228,9 @@ class Ctx:
             return True
         if r == z3.sat:
             model = {}
+            ch = ["%s=%d" % (d[1][2:].rsplit(":", 1)[0], d[0]) for d in self.decisions[: self.pos] if d[1].startswith("c:")]
+            if ch:
+                note = (note + " " if note else "") + "[case: " + ", ".join(ch) + "]"
             for k, v in self.inputs.items():
                 try:
                     model[k] = _model_value(m, v)
